@@ -44,6 +44,14 @@ def forms(pid, rng):
     if pid == HTTP:
         for v in http.VERBS:
             out.append(((v + " /x HTTP/1.1\r\nHost: a\r\n\r\n").encode(), set()))
+        for _ in range(6):
+            # requests from the full grammar (header names with every token character, odd versions, bare LF ...): the
+            # signature is the verb and "/" alone
+            p = http.gen_parts(rng, max_target=30, max_headers=4)
+            if p["target"].startswith(b"/"):
+                p["headers"].append((bytes(rng.choice(b"!#$%&'*+-.^_`|~0aZ") for _x in range(rng.randrange(1, 9))), b" 1"))
+                p["eols"].insert(1, p["eols"][0])
+                out.append((http.build(p), set()))
     elif pid == SSH:
         out.append((b"SSH-2.0-OpenSSH_9.0\r\n", set()))
         out.append((b"SSH-1.99-x y\r\n", set()))
@@ -64,6 +72,9 @@ def forms(pid, rng):
         for nargs in (0, 4):
             m = rpc.call(rng.getrandbits(32), 100000, 2, 3, args=rb(nargs))
             out.append((m, {0, 1, 2, 3, 15, 16, 17, 18, 19, 23}))
+        # every version / procedure combination is answered by the RPC responder (with a mismatch / unavailable reply at least)
+        for vers, proc in ((0, 3), (1, 4), (1, 3), (5, 0), (0x10003, 3), (0xFFFFFFFF, 4)):
+            out.append((rpc.call(rng.getrandbits(32), rng.choice([100000, 100000, 99900, 100003]), vers, proc), {0, 1, 2, 3, 15, 16, 17, 18, 19, 23}))
         # AUTH_SYS credentials as every real client sends them (stamp, machine name, uid, gid, gids), AUTH_SHORT verifier
         cred = struct.pack("!I", rng.getrandbits(32)) + rpc.xdr_string(b"scanner") + struct.pack("!III", 0, 0, 0)
         out.append((rpc.call(rng.getrandbits(32), 100000, 2, 4, cred=cred, cred_flavor=1), {0, 1, 2, 3, 15, 16, 17, 18, 19, 23}))
@@ -74,6 +85,8 @@ def forms(pid, rng):
             out.append((m, {4, 5, 6, 7, 19, 20, 21, 22, 23, 27}))
         cred = struct.pack("!I", rng.getrandbits(32)) + rpc.xdr_string(b"scanner") + struct.pack("!III", 0, 0, 0)
         out.append((rpc.record(rpc.call(rng.getrandbits(32), 100000, 2, 4, cred=cred, cred_flavor=1)), {4, 5, 6, 7, 19, 20, 21, 22, 23, 27}))
+        for vers, proc in ((0, 3), (1, 4), (5, 0), (0x10003, 3)):
+            out.append((rpc.record(rpc.call(rng.getrandbits(32), rng.choice([100000, 100000, 99900]), vers, proc)), {4, 5, 6, 7, 19, 20, 21, 22, 23, 27}))
         out.append((rpc.record(rpc.call(rng.getrandbits(32), 100000, 4, 0, cred=rb(4), cred_flavor=1, verf=rb(12), verf_flavor=2)), {4, 5, 6, 7, 19, 20, 21, 22, 23, 27}))
     elif pid in (SMB1, SMB2):
         for n in (1, 2, 3, 5, 9):
